@@ -76,7 +76,11 @@ func VerifHarness_C04_header_authenticated() {
 		rec = append(rec, verifNondetBytes("tail", 20)...)
 	}
 	vmac.wire = rec
-	vmac.allWindows = true // after a shortened length field the rest of the datagram is parsed at other offsets
+	if which >= 11 {
+		vmac.allWindows = true // after a changed length field the receiver looks for the MAC at other offsets
+	} else {
+		vmac.recStarts = []int{0} // the record keeps its shape: the MAC is where the sender put it
+	}
 	rt := &verifPConn{in: [][]byte{rec}}
 	r := newEstablishedD(rt, kind, iv, false, 0)
 	buf := make([]byte, 4)
